@@ -22,6 +22,9 @@ def cfg_of(fi):
 
 def reset_caches():
     _cfg_cache.clear()
+    _callers.clear()
+    from . import tr
+    tr.reset()
 
 
 def node_obj(name, cls='ConfigNode', **fields):
@@ -197,3 +200,47 @@ def get_kw(call, name):
 
 def str_const(e):
     return e.value if isinstance(e, ast.Constant) and isinstance(e.value, str) else None
+
+
+# ------------------------------------------------------------------------------------------------------------
+_callers = {}
+
+
+def callers_index(repo):
+    """FuncInfo.qualname -> set of qualnames of the functions (incl. nested) whose body calls it (resolved calls)"""
+    key = id(repo)
+    if key not in _callers:
+        idx = {}
+        for fi in repo.all_functions(include_nested=True):
+            for c in calls_in(fi.node, nested=False):
+                try:
+                    targets = repo.resolve_call(c, fi)
+                except Exception:  # noqa
+                    targets = []
+                for t in targets:
+                    idx.setdefault(t.qualname, set()).add(fi.qualname)
+            # functions handed over as values (callbacks) count as called by the function that mentions them
+            for n in ast.walk(fi.node):
+                if isinstance(n, ast.Name) and isinstance(n.ctx, ast.Load) and n.id in fi.module.functions and n.id != fi.name:
+                    idx.setdefault(fi.module.functions[n.id].qualname, set()).add(fi.qualname)
+        _callers.clear()
+        _callers[key] = (repo, idx)
+    return _callers[key][1]
+
+
+def only_reached_from(repo, qualname, allowed, depth=4):
+    """True when `qualname` is in `allowed`, or is a private helper / nested function every caller of which (transitively,
+    bounded) satisfies the same - i.e. the code was merely moved out of an allowed function"""
+    def top(q):
+        return q.split('.<locals>')[0]
+    if qualname in allowed or top(qualname) in allowed:
+        return True
+    if depth == 0:
+        return False
+    name = qualname.split('.')[-1]
+    if not name.startswith('_') or name.startswith('__'):
+        return False
+    cs = callers_index(repo).get(qualname, set())
+    if not cs:
+        return False
+    return all(only_reached_from(repo, c, allowed, depth - 1) for c in cs)
